@@ -141,6 +141,27 @@ example : Uniform 2 (Node.mk (G := Int) (V := Int) ⟨[1, 2], [0, 0]⟩
   rcases hd with rfl | rfl | rfl <;> exact ⟨rfl, rfl⟩
 
 
+-- AUDIT2: the equal-length hypothesis `Uniform` is NEEDED (DESIGN §6 announces this counter-example; it was missing):
+-- a collection with a one-entry path holding a child with a two-entry path; `move` with a vector of one entry (start =
+-- auto: appended) lengthens the collection's path 1 → 2 and the child's 2 → 3.  At path index 1 the child's pose in the
+-- collection frame was (2,0,0) (collection read with the stay-at-the-last-pose rule of getBH) and is (2,0,−5) afterwards:
+-- the new step of the collection lands on an OLD entry of the child.
+example :
+    let o : ObjZ := ⟨[⟨0, 0, 0⟩], [1]⟩
+    let d : ObjZ := ⟨[⟨1, 0, 0⟩, ⟨2, 0, 0⟩], [1, 1]⟩
+    let o' : ObjZ := ⟨[⟨0, 0, 0⟩, ⟨0, 0, 5⟩], [1, 1]⟩
+    let d' : ObjZ := ⟨[⟨1, 0, 0⟩, ⟨2, 0, 0⟩, ⟨2, 0, 5⟩], [1, 1, 1]⟩
+    ((Node.mk o [.mk d []]).move (.vector [⟨0, 0, 5⟩]) none).objs = [o', d'] ∧
+    relAt (⟨[⟨0, 0, 0⟩, ⟨0, 0, 0⟩], [1, 1]⟩ : ObjZ) d 1 = some (⟨2, 0, 0⟩, 1) ∧
+    relAt o' d' 1 = some (⟨2, 0, -5⟩, 1) := by
+  intro o d o' d'
+  refine ⟨?_, by decide, by decide⟩
+  rw [Node.move_objs]
+  have h1 : applyMove (G := M3 Int) (PathIn.vector [(⟨0, 0, 5⟩ : V3 Int)]) none o = o' := by decide
+  have h2 : applyMove (G := M3 Int) (PathIn.vector [(⟨0, 0, 5⟩ : V3 Int)]) none d = d' := by decide
+  simp [Node.objs, h1, h2]
+
+
 /-! ### histories: one refinement theorem (abstract spec in Lemmas/History.lean)
 
 Abstract state of a collection (`CollSpec`): its own pose path `frame` and, per direct child, the path of poses RELATIVE TO
@@ -234,6 +255,44 @@ example : ∃ (t : Node ℤˣ ℤ) (ops : List (HOp ℝ ℤˣ ℤ)) (sc : Scipy 
    by simp [Admissible, HOp.Adm, Op.addr, Op.WF, PathIn.WF],
    rfl⟩
 
+-- AUDIT2 non-vacuity of `history_refines_spec` with a NON-TRIVIAL history, the theorem APPLIED: a nested tree (collection ▸
+-- sub-collection ▸ object, second child), common length 2; vector move with a negative start reaching in front of the path
+-- (2 → 4), vector rotation with a per-step anchor and start −1 (4 → 6), rotate_from_rotvec (scalar, anchor 0), position= of
+-- length 3 (end slice), orientation= of length 5 (edge pad), add of a nested collection of length 5, remove of child 0,
+-- a rejected call, the empty position (refused), reset_path (→ 1): every hypothesis is discharged and the conclusion used
+example :
+    let sc : Scipy ℝ ℤˣ := ⟨fun _ => -1, fun _ => some 1, fun _ => 1, fun _ => some 1⟩
+    let t : Node ℤˣ ℤ := .mk ⟨[1, 2], [1, -1]⟩ [.mk ⟨[5, 6], [1, 1]⟩ [.mk ⟨[7, 8], [-1, 1]⟩ []], .mk ⟨[0, 0], [-1, 1]⟩ []]
+    let ops : List (HOp ℝ ℤˣ ℤ) :=
+      [.base (.move [] (.vector [3, 4, 5]) (some (-4))),
+       .base (.rotate [] (.vector [-1, 1]) (some (.vector [7, 8, 9])) (some (-1))),
+       .rotFrom [] (.rotvec (.scalar ⟨0, 0, 90⟩) true) (some (.scalar 0)) none,
+       .base (.setPos [] [1, 2, 3]),
+       .base (.setOri [] [1, -1, 1, -1, 1]),
+       .add [] (.mk ⟨[1, 1, 1, 1, 1], [1, 1, 1, 1, -1]⟩ [.mk ⟨[2, 2, 2, 2, 2], [1, 1, 1, 1, 1]⟩ []]),
+       .remove [] 0,
+       .base .rejected,
+       .base (.setPos [] []),
+       .base (.reset [])]
+    histLen sc 2 ops = 1 ∧
+    absColl (ops.foldl (Node.hstep sc) t) = ops.foldl (specStep sc) (absColl t) ∧
+    Uniform 1 (ops.foldl (Node.hstep sc) t) := by
+  intro sc t ops
+  have hU : Uniform 2 t := by
+    intro d hd; simp [t, Node.objs] at hd; rcases hd with rfl | rfl | rfl | rfl <;> exact ⟨rfl, rfl⟩
+  have hl : histLen sc 2 ops = 1 := by decide
+  have hadm : Admissible sc 2 ops := by
+    refine ⟨⟨rfl, trivial⟩, ⟨rfl, ?_, ?_⟩, ⟨rfl, trivial, ?_⟩, ⟨rfl, trivial⟩, ⟨rfl, trivial⟩, ⟨rfl, ?_⟩, rfl, ⟨rfl, trivial⟩,
+      ⟨rfl, trivial⟩, ⟨rfl, trivial⟩, trivial⟩
+    · simp [PathIn.WF]
+    · intro a ha; cases ha; simp [PathIn.WF]
+    · intro a ha; cases ha; trivial
+    · show Node.UniformLen 5 _
+      intro d hd; simp [Node.objs] at hd; rcases hd with rfl | rfl <;> exact ⟨rfl, rfl⟩
+  obtain ⟨h1, h2, _, _⟩ := history_refines_spec sc t 2 (by decide) hU ops hadm
+  rw [hl] at h2
+  exact ⟨hl, h1, h2⟩
+
 /-! ### histories with operations addressed to ANY node (abstract spec with the tree shape kept: Lemmas/HistoryAddr.lean)
 
 `HSpec`: the collection's frame and a FOREST of relative pose paths (one tree per direct child, shaped like the child's
@@ -317,6 +376,29 @@ theorem history_index_map (sc : Scipy α G) (t : Node G V) (N : Nat) (hN : 1 ≤
   · intro i hi
     obtain ⟨_, _, h3, h4⟩ := relAt_history sc ops t N hN hU hadm d d' ⟨k, m0, m', htr, hd, hd'⟩ i hi
     exact ⟨h3, h4⟩
+
+/-- AUDIT2, C10(l'): **`history_index_map` without the `Option`** — `relAt` is `Option`-valued, and an equality of two `none`s
+would say nothing: for every member the history does not touch and every final path index `i`, BOTH relative poses exist and
+are the same pair `p = (R_C⁻¹ (p_d − p_C), R_C⁻¹ R_d)`: the pose of the member in the collection's frame after the history
+at index `i` is its pose in the collection's frame before the history at index `histIdx … i` — the property's sentence
+("each child's position and orientation expressed in the collection's frame are unchanged at every path index"), with the
+re-indexing map made explicit. -/
+theorem history_index_map_some (sc : Scipy α G) (t : Node G V) (N : Nat) (hN : 1 ≤ N) (hU : Uniform N t)
+    (ops : List (HOp α G V)) (hadm : AdmissibleAt sc N ops) (k : Nat) (m0 m' : List Nat) (d : Obj G V)
+    (htr : histTrack sc ops (k :: m0) = some m') (hd : t.objAt? (k :: m0) = some d) :
+    ∃ d', (ops.foldl (Node.hstep sc) t).objAt? m' = some d' ∧
+      ∀ i, i < histLen sc N ops → ∃ p : V × G,
+        relAt t.obj d (histIdx sc N ops i) = some p ∧ relAt (ops.foldl (Node.hstep sc) t).obj d' i = some p := by
+  obtain ⟨d', hd', _, h⟩ := history_index_map sc t N hN hU ops hadm k m0 m' d htr hd
+  refine ⟨d', hd', ?_⟩
+  intro i hi
+  obtain ⟨hlt, he⟩ := h i hi
+  have ho := hU t.obj (Node.mem_objs_self t)
+  have hdl := hU d (Node.objAt?_mem _ _ _ hd)
+  have hl := length_relPath t.obj d N ho hdl
+  have hr := getElem?_relPath t.obj d N ho hdl (histIdx sc N ops i)
+  rw [List.getElem?_eq_getElem (by omega)] at hr
+  exact ⟨_, hr.symm, by rw [he]; exact hr.symm⟩
 
 /-- the recursion `histIdx` is defined by, and the per-operation maps -/
 theorem histIdx_unfold (sc : Scipy α G) (N : Nat) (op : HOp α G V) (rest : List (HOp α G V)) (a : List Nat)
@@ -467,6 +549,186 @@ example : ∃ (t : Node ℤˣ ℤ) (ops : List (HOp ℝ ℤˣ ℤ)) (sc : RotFro
     tracked_member_exists _ _ 2 (by decide) hU _ hadm 0 [] [0] _ (by decide) rfl,
     tracked_member_exists _ _ 2 (by decide) hU _ hadm 1 [] [1] _ (by decide) rfl, by decide, by decide, by decide⟩
 end ownSensor
+
+/-! ### AUDIT2: the own-sensor statements for the function the driver runs
+
+`own_sensor_field_invariant` / `own_sensor_reading_invariant_history` are about `reading` (Lemmas/OwnSensor.lean, a
+specification function); the `path` driver family runs `Node.ownTensor` (Model/History.lean: Model/Level2 `tensor` on the
+objects at the given addresses) and the own-sensor rows tie THAT to `getB(collection, own sensor)`.  The two are connected
+here (through `tensor_eq_spec`, C06), over a group with a lawful `BEq` (what `tensor` needs). -/
+section a2own
+open Level2 RotFrom
+variable [Group G] [AddCommGroup V] [DistribMulAction G V] [BEq G] [LawfulBEq G]
+
+omit [Group G] [AddCommGroup V] [DistribMulAction G V] [BEq G] [LawfulBEq G] in
+theorem mapM_objAt (t : Node G V) : ∀ (srcs : List (List Nat × (V → V))) (objs : List (Obj G V × (V → V))),
+    List.Forall₂ (fun a b => t.objAt? a.1 = some b.1 ∧ b.2 = a.2) srcs objs →
+    (srcs.mapM fun a => (t.objAt? a.1).map fun o => Level2.Entry.leaf (⟨o.pos, o.ori, a.2⟩ : Src G V)) =
+      some (objs.map fun a => .leaf ⟨a.1.pos, a.1.ori, a.2⟩) := by
+  intro srcs objs h
+  induction h with
+  | nil => rfl
+  | cons hab _ ih =>
+    rw [List.mapM_cons, ih, hab.1, ← hab.2]
+    rfl
+
+/-- AUDIT2: the reading the driver computes (`Node.ownTensor`, Model/History.lean — `tensor` of Model/Level2 on the objects at
+the addresses) IS the list of `reading`s the own-sensor theorems are about, one per path index -/
+theorem ownTensor_eq_readings (flipX : V → V) (t : Node G V) (srcs : List (List Nat × (V → V))) (kaddr : List Nat)
+    (pixels : List V) (pixShape : List Nat) (left : Bool) (objs : List (Obj G V × (V → V))) (k : Obj G V)
+    (hs : List.Forall₂ (fun a b => t.objAt? a.1 = some b.1 ∧ b.2 = a.2) srcs objs) (hk : t.objAt? kaddr = some k)
+    (hne : objs ≠ []) (hwf : (sensOf k pixels pixShape left).WF) :
+    t.ownTensor flipX srcs kaddr pixels pixShape left =
+      some ((List.range (pathLen (entryOf objs).leaves [sensOf k pixels pixShape left])).map fun m =>
+        reading flipX (entryOf objs) (sensOf k pixels pixShape left) m) := by
+  unfold Node.ownTensor
+  rw [mapM_objAt t srcs objs hs, hk]
+  simp only [Option.bind_eq_bind, Option.bind_some]
+  have hte := tensor_eq_spec flipX [entryOf objs] [sensOf k pixels pixShape left]
+    (by intro e he; simp only [List.mem_singleton] at he; subst he
+        rw [leaves_entryOf]; simpa using hne)
+    (by intro k' hk'; simp only [List.mem_singleton] at hk'; subst hk'; exact hwf)
+  unfold entryOf sensOf at hte
+  rw [hte]
+  simp [specTensor, reading, entryOf, sensOf]
+
+omit [Group G] [AddCommGroup V] [DistribMulAction G V] [BEq G] [LawfulBEq G] in
+theorem foldl_max_const (N : Nat) : ∀ (l : List Nat) (a : Nat), (∀ x ∈ l, x = N) → l ≠ [] → l.foldl max a = max a N := by
+  intro l
+  induction l with
+  | nil => intro a _ h; exact absurd rfl h
+  | cons x xs ih =>
+    intro a hx _
+    have hxN : x = N := hx x List.mem_cons_self
+    subst hxN
+    by_cases hxs : xs = []
+    · subst hxs; rfl
+    · rw [List.foldl_cons, ih (max a x) (fun y hy => hx y (List.mem_cons_of_mem _ hy)) hxs]
+      omega
+
+omit [Group G] [AddCommGroup V] [DistribMulAction G V] [BEq G] [LawfulBEq G] in
+theorem pathLen_uniform (objs : List (Obj G V × (V → V))) (k : Obj G V) (pixels : List V) (pixShape : List Nat) (left : Bool)
+    (N : Nat) (ho : ∀ a ∈ objs, a.1.pos.length = N) (hk : k.pos.length = N) :
+    pathLen (entryOf objs).leaves [sensOf k pixels pixShape left] = N := by
+  unfold pathLen
+  rw [foldl_max_const N _ 0 ?_ (by simp [sensOf])]
+  · omega
+  · intro x hx
+    rw [leaves_entryOf] at hx
+    simp only [List.map_map, List.map_cons, List.map_nil, List.mem_append, List.mem_map, Function.comp_apply,
+      List.mem_singleton, sensOf] at hx
+    rcases hx with ⟨a, ha, rfl⟩ | rfl
+    · exact ho a ha
+    · exact hk
+
+omit [BEq G] [LawfulBEq G] in
+/-- the objects behind tracked addresses, before and after a history -/
+theorem tracked_objects {α : Type} [Kern.Num α] (sc : RotFrom.Scipy α G) (t : Node G V) (N : Nat) (hN : 1 ≤ N)
+    (hU : Uniform N t) (ops : List (HOp α G V)) (hadm : AdmissibleAt sc N ops) :
+    ∀ (srcs srcs' : List (List Nat × (V → V))),
+    List.Forall₂ (fun a b => b.2 = a.2 ∧ ∃ k m0, a.1 = k :: m0 ∧ histTrack sc ops a.1 = some b.1) srcs srcs' →
+    (∀ a ∈ srcs, ∃ d, t.objAt? a.1 = some d) →
+    ∃ objs objs' : List (Obj G V × (V → V)),
+      List.Forall₂ (fun a b => t.objAt? a.1 = some b.1 ∧ b.2 = a.2) srcs objs ∧
+      List.Forall₂ (fun a b => (ops.foldl (Node.hstep sc) t).objAt? a.1 = some b.1 ∧ b.2 = a.2) srcs' objs' ∧
+      List.Forall₂ (fun a b => b.2 = a.2 ∧ TrackedMember sc ops t a.1 b.1) objs objs' ∧
+      (∀ a ∈ objs, a.1 ∈ t.objs) ∧ (∀ b ∈ objs', b.1 ∈ (ops.foldl (Node.hstep sc) t).objs) := by
+  intro srcs srcs' hs
+  induction hs with
+  | nil => intro _; exact ⟨[], [], .nil, .nil, .nil, by simp, by simp⟩
+  | @cons a b l l' hab _ ih =>
+    intro hex
+    obtain ⟨objs, objs', h1, h2, h3, h4, h5⟩ := ih (fun x hx => hex x (List.mem_cons_of_mem _ hx))
+    obtain ⟨d, hd⟩ := hex a List.mem_cons_self
+    obtain ⟨hF, k, m0, hak, htr⟩ := hab
+    rw [hak] at htr hd
+    obtain ⟨d', hd', _⟩ := objAt_history sc ops t N hN hU hadm k m0 b.1 d htr hd
+    refine ⟨(d, a.2) :: objs, (d', b.2) :: objs', .cons ⟨by rw [hak]; exact hd, rfl⟩ h1, .cons ⟨hd', rfl⟩ h2,
+      .cons ⟨hF, k, m0, b.1, htr, hd, hd'⟩ h3, ?_, ?_⟩
+    · intro x hx
+      rcases List.mem_cons.mp hx with rfl | hx
+      · exact Node.objAt?_mem _ _ _ hd
+      · exact h4 x hx
+    · intro x hx
+      rcases List.mem_cons.mp hx with rfl | hx
+      · exact Node.objAt?_mem _ _ _ hd'
+      · exact h5 x hx
+
+/-- AUDIT2 **own_sensor_tensor_invariant_history**: `own_sensor_reading_invariant_history` for the function the DRIVER runs
+(`Node.ownTensor` = Model/Level2 `tensor` on the objects at the given addresses; `read` command of the `path` family, tied
+to `getB(collection, own sensor)` by the own-sensor rows).  Sources at addresses `srcs` (arbitrary field functions), sensor
+at address `kaddr`, all below the collection (addresses non-empty) and left where they are by the history (`histTrack`
+gives their addresses afterwards): both tensors exist, have one row per path index (`N` before, `histLen` after), and row
+`i` after the history is row `histIdx … i` before it — both rows exist (`some`). -/
+theorem own_sensor_tensor_invariant_history {α : Type} [Kern.Num α] (flipX : V → V) (sc : RotFrom.Scipy α G)
+    (t : Node G V) (N : Nat) (hN : 1 ≤ N) (hU : Uniform N t) (ops : List (HOp α G V)) (hadm : AdmissibleAt sc N ops)
+    (srcs srcs' : List (List Nat × (V → V))) (kaddr kaddr' : List Nat) (pixels : List V) (pixShape : List Nat) (left : Bool)
+    (hs : List.Forall₂ (fun a b => b.2 = a.2 ∧ ∃ k m0, a.1 = k :: m0 ∧ histTrack sc ops a.1 = some b.1) srcs srcs')
+    (hsex : ∀ a ∈ srcs, ∃ d, t.objAt? a.1 = some d)
+    (hk : ∃ k m0, kaddr = k :: m0 ∧ histTrack sc ops kaddr = some kaddr') (hkex : ∃ d, t.objAt? kaddr = some d)
+    (hne : srcs ≠ []) (hpix : pixels.length = pixShape.foldl (· * ·) 1) :
+    ∃ T T', t.ownTensor flipX srcs kaddr pixels pixShape left = some T ∧
+      (ops.foldl (Node.hstep sc) t).ownTensor flipX srcs' kaddr' pixels pixShape left = some T' ∧
+      T.length = N ∧ T'.length = histLen sc N ops ∧
+      ∀ i, i < histLen sc N ops → histIdx sc N ops i < N ∧
+        ∃ row, T'[i]? = some row ∧ T[histIdx sc N ops i]? = some row := by
+  obtain ⟨objs, objs', h1, h2, h3, h4, h5⟩ := tracked_objects sc t N hN hU ops hadm srcs srcs' hs hsex
+  obtain ⟨k, m0, hka, hktr⟩ := hk
+  obtain ⟨ks, hks⟩ := hkex
+  subst hka
+  obtain ⟨ks', hks', _⟩ := objAt_history sc ops t N hN hU hadm k m0 kaddr' ks hktr hks
+  have hkT : TrackedMember sc ops t ks ks' := ⟨k, m0, kaddr', hktr, hks, hks'⟩
+  obtain ⟨_, hU', hN'⟩ := absH_history sc ops t N hN hU hadm
+  have hone : objs ≠ [] := by
+    intro e; subst e; cases h1; exact hne rfl
+  have hone' : objs' ≠ [] := by
+    intro e; subst e; cases h3; exact hone rfl
+  have hkl := hU ks (Node.objAt?_mem _ _ _ hks)
+  have hkl' := hU' ks' (Node.objAt?_mem _ _ _ hks')
+  have hwf : (sensOf ks pixels pixShape left).WF := by
+    refine ⟨?_, by simp [sensOf, hkl.1, hkl.2], hpix⟩
+    intro e; simp only [sensOf] at e; rw [e] at hkl; simp at hkl; omega
+  have hwf' : (sensOf ks' pixels pixShape left).WF := by
+    refine ⟨?_, by simp [sensOf, hkl'.1, hkl'.2], hpix⟩
+    intro e; simp only [sensOf] at e; rw [e] at hkl'; simp at hkl'; omega
+  have e1 := ownTensor_eq_readings flipX t srcs (k :: m0) pixels pixShape left objs ks h1 hks hone hwf
+  have e2 := ownTensor_eq_readings flipX _ srcs' kaddr' pixels pixShape left objs' ks' h2 hks' hone' hwf'
+  rw [pathLen_uniform objs ks pixels pixShape left N (fun a ha => (hU _ (h4 a ha)).1) hkl.1] at e1
+  rw [pathLen_uniform objs' ks' pixels pixShape left _ (fun a ha => (hU' _ (h5 a ha)).1) hkl'.1] at e2
+  refine ⟨_, _, e1, e2, by simp, by simp, ?_⟩
+  intro i hi
+  obtain ⟨hlt, hread⟩ := own_sensor_reading_invariant_history flipX sc t N hN hU ops hadm objs objs' ks ks' pixels pixShape
+    left h3 hkT i hi
+  refine ⟨hlt, reading flipX (entryOf objs') (sensOf ks' pixels pixShape left) i, ?_, ?_⟩
+  · rw [List.getElem?_map, List.getElem?_range hi]; rfl
+  · rw [List.getElem?_map, List.getElem?_range hlt, hread]; rfl
+
+-- AUDIT2 non-vacuity: `own_sensor_tensor_invariant_history` APPLIED
+example : ∃ T T' : List (List ℤ), T.length = 2 ∧ T'.length = 3 ∧
+    ∀ i, i < 3 → ∃ row, T'[i]? = some row ∧ T[[0, 1, 1].getD i 0]? = some row := by
+  have hU : Uniform 2 (Node.mk (G := ℤˣ) (V := ℤ) ⟨[1, 2], [1, -1]⟩ [.mk ⟨[5, 6], [1, 1]⟩ [], .mk ⟨[0, 0], [-1, 1]⟩ []]) := by
+    intro d hd; simp [Node.objs] at hd; rcases hd with rfl | rfl | rfl <;> exact ⟨rfl, rfl⟩
+  have hadm : AdmissibleAt (α := ℝ) (G := ℤˣ) (V := ℤ) ⟨fun _ => 1, fun _ => some 1, fun _ => 1, fun _ => some 1⟩ 2
+      [.base (.move [] (.scalar 3) none), .base (.rotate [] (.vector [-1]) none none)] := by
+    refine ⟨⟨trivial, fun h => absurd rfl h⟩, ⟨⟨?_, ?_⟩, fun h => absurd rfl h⟩, trivial⟩
+    · simp [PathIn.WF]
+    · intro a ha; cases ha
+  obtain ⟨T, T', _, _, h3, h4, h5⟩ := own_sensor_tensor_invariant_history (fun x : ℤ => -x) _ _ 2 (by decide) hU _ hadm
+    [([0], fun x => 2 * x + 1)] [([0], fun x => 2 * x + 1)] [1] [1] [0, 3] [2] false
+    (.cons ⟨rfl, 0, [], rfl, by decide⟩ .nil) (by intro a ha; simp at ha; subst ha; exact ⟨_, rfl⟩)
+    ⟨1, [], rfl, by decide⟩ ⟨_, rfl⟩ (by simp) rfl
+  have hl : histLen (α := ℝ) (G := ℤˣ) (V := ℤ) ⟨fun _ => 1, fun _ => some 1, fun _ => 1, fun _ => some 1⟩ 2
+      [.base (.move [] (.scalar 3) none), .base (.rotate [] (.vector [-1]) none none)] = 3 := by decide
+  rw [hl] at h4 h5
+  refine ⟨T, T', h3, h4, ?_⟩
+  intro i hi
+  obtain ⟨_, row, r1, r2⟩ := h5 i hi
+  refine ⟨row, r1, ?_⟩
+  have : histIdx (α := ℝ) (G := ℤˣ) (V := ℤ) ⟨fun _ => 1, fun _ => some 1, fun _ => 1, fun _ => some 1⟩ 2
+      [.base (.move [] (.scalar 3) none), .base (.rotate [] (.vector [-1]) none none)] i = [0, 1, 1].getD i 0 := by
+    interval_cases i <;> decide
+  rw [← this]; exact r2
+end a2own
 
 /-! ### on the carrier the driver computes with (AUDIT X1)
 
